@@ -192,7 +192,12 @@ def materialise(spec, path):
                         arr = np.array(val[:g], dtype=float)
                         if name not in ("chi", "neutronsPerFission"):
                             arr = arr * scale
+                        elif name == "neutronsPerFission" and spec.get("multVariant"):
+                            arr = arr * (1.0 + 0.25 * spec["multVariant"])  # a library with other multiplier data
                         dc[name] = arr
+                if kind == "iso" and spec.get("multVariant"):
+                    nm["efiss"] = nm["efiss"] * 2.0 * spec["multVariant"]
+                    nm["ecapt"] = nm["ecapt"] * 0.5 / spec["multVariant"]
                 lib[label] = n
         else:
             smeta = src.pmatrxMetadata
